@@ -3,6 +3,7 @@
   Memory: AuthModel.MemStore (timeouts checked by `live` on every access).
   Redis: AuthModel.Redis (key TTL set by EXPIREAT ⌊min(created+abs, now+idle)⌋ on every access).
 -/
+import AuthProofs.StateInventory
 import AuthProofs.MemoryTTL
 import AuthProofs.RedisTTL
 namespace AuthProps.C10
@@ -102,6 +103,9 @@ def sX : MSess := { tokens := none, auth := none, added := 0, accessed := 0 }
 example : (MemStore.empty 10000000000 0).expired 10000000000 sX = false := by decide
 example : (MemStore.empty 10000000000 0).expired 10000000001 sX = true := by decide
 
+/-- NO HIDDEN STATE: the stores keep nothing but what the model says they keep: regenerated inventory of every package-level variable and struct field of internal/oidc; the Redis store has no mutable field (all its state is server-side), the memory store has its mutex, its map and the four fields of an entry. -/
+theorem no_hidden_state : StoreInventory := store_inventory
+
 end AuthProps.C10
 
 #print axioms AuthProps.C10.memory_never_late_tokens
@@ -117,3 +121,4 @@ end AuthProps.C10
 #print axioms AuthProps.C10.redis_login_write_keeps_created
 #print axioms AuthProps.C10.redis_read_keeps_created
 #print axioms AuthProps.C10.redis_write_uses_stored_creation
+#print axioms AuthProps.C10.no_hidden_state
